@@ -160,8 +160,56 @@ func c13produced(rec *mon.Recorder, cell string, goMap map[any]any, protected bo
 		return
 	}
 	if d, ran := decVerdictBucket(rec, out, protected, inn); ran && !d {
-		rec.Violate("produced-not-decodable", cell, "the encoder produced a header its own decoder refuses", inn)
+		key := cell
+		if shrunk, n := c13shrinkBigUints(out, protected); n > 0 {
+			if d2, ran2 := decVerdictBucket(rec, shrunk, protected, inn); ran2 && d2 {
+				// input class of known finding F2: the only obstacle is a header *value* that is a CBOR uint
+				// above 2^63-1, which the decoder's int64 conversion cannot represent
+				key = "unsigned-header-value-above-2^63-1-encoded-but-not-decodable"
+				rec.Event("F2-witness")
+			}
+		}
+		rec.Violate("produced-not-decodable", key, "the encoder produced a header its own decoder refuses ("+cell+")", inn)
 	}
+}
+
+// c13shrinkBigUints returns the bucket encoding with every unsigned integer above 2^63-1 in value
+// position (anywhere but a label of the top-level map) replaced by 1, and how many were replaced.
+func c13shrinkBigUints(out []byte, protected bool) ([]byte, int) {
+	n, err := refcbor.Parse(out)
+	if err != nil {
+		return nil, 0
+	}
+	m := n
+	if protected {
+		if n.Major != refcbor.Bstr || len(n.Str) == 0 {
+			return nil, 0
+		}
+		if m, err = refcbor.Parse(n.Str); err != nil {
+			return nil, 0
+		}
+	}
+	if m.Major != refcbor.Map {
+		return nil, 0
+	}
+	count := 0
+	var walk func(x *Node)
+	walk = func(x *Node) {
+		if x.Major == refcbor.Uint && x.Arg > 1<<63-1 {
+			x.Arg, x.Width = 1, 0
+			count++
+		}
+		for _, k := range x.Kids {
+			walk(k)
+		}
+	}
+	for i := 1; i < len(m.Kids); i += 2 {
+		walk(m.Kids[i])
+	}
+	if count == 0 {
+		return nil, 0
+	}
+	return wireBucket(m, protected), count
 }
 
 // judgeBucket compares the three verdicts for a single-bucket header set.
@@ -518,6 +566,8 @@ func runC13(c *Ctx) {
 		"float32":                  float32(1.5),
 		"named-string":             namedString("a/b"),
 		"named-bytes":              namedBytes{1, 2},
+		"uint64-2^63":              uint64(1) << 63,
+		"uint64-max-in-array":      []any{^uint64(0)},
 	}
 	names := make([]string, 0, len(exotic))
 	for n := range exotic {
@@ -561,6 +611,146 @@ func runC13(c *Ctx) {
 			}
 		}
 	}
+	// ---- content type / typ texts whose status the property leaves open: only symmetry is judged ----
+	for si, str := range []string{"a/b/c", "/", "a/", "/b", " ", "a /b", "a/ b", "a/b;x=1", "text/plain; charset=utf-8", "a/b; q=\"c/d\"", "\ta/b", "a/b\n", "\u00a0a/b", "a/b\u2003",
+		"a\x00/b", "A/B", "a//b", "a/" + strings.Repeat("b", 70000), "\u00e9/\u00e8", "a\\b", "application/cose; cose-type=\"cose-sign1\""} {
+		for _, l := range []int64{3, 16, 99} {
+			for _, protected := range []bool{true, false} {
+				cell := fmt.Sprintf("open-text/%d/label=%d/protected=%v", si, l, protected)
+				short := str
+				if len(short) > 40 {
+					short = short[:40] + "..."
+				}
+				in := map[string]any{"cell": cell, "text": short}
+				encOK, ran1 := encVerdictBucket(rec, map[any]any{l: str}, protected, in)
+				decOK, ran2 := decVerdictBucket(rec, wireBucket(refcbor.NMap(refcbor.NInt(l), refcbor.NTstr(str)), protected), protected, in)
+				if !ran1 || !ran2 {
+					continue
+				}
+				rec.Eval(1)
+				rec.Class(fmt.Sprintf("%s/enc=%v", cell, encOK))
+				rec.Event("open-text-symmetry")
+				if encOK != decOK {
+					rec.Violate("asymmetric", cell, fmt.Sprintf("text %q under label %d: encoder verdict %v, decoder verdict %v", short, l, encOK, decOK), in)
+				}
+				if l == 99 && !encOK {
+					rec.Violate("asymmetric", cell+"/unregistered", "a text value under an unregistered label was refused", in)
+				}
+				if l == 16 && protected {
+					h := cose.ProtectedHeader{}
+					if _, err := h.SetType(str); err != nil {
+						rec.Violate("setter", "SetType-refuses-text", "SetType refused a text string (its documented rule is tstr / uint): "+err.Error(), in)
+					}
+				}
+			}
+		}
+	}
+	// ---- the setter helpers of the protected header agree with the encoder's rule for the same label ----
+	{
+		type sv struct {
+			name string
+			v    any
+		}
+		var svs []sv
+		for _, v := range values {
+			svs = append(svs, sv{v.name, v.goV(r)})
+		}
+		for _, n := range names {
+			svs = append(svs, sv{"go-specific-" + n, exotic[n]})
+		}
+		for t := 0; t < gen.IntSpellings; t++ {
+			for _, iv := range []int64{0, 5, 127, -1, -128} {
+				if gen.Fits(iv, t) {
+					svs = append(svs, sv{fmt.Sprintf("int%d-as-%s", iv, gen.SpellNames[t]), gen.SpellIntAs(iv, t)})
+				}
+			}
+		}
+		svs = append(svs, sv{"uint64-max", ^uint64(0)}, sv{"tstr-space-only", " "})
+		for _, x := range svs {
+			for _, pre := range []bool{false, true} {
+				cell := fmt.Sprintf("setter/SetType/value=%s/preset=%v", x.name, pre)
+				in := map[string]any{"cell": cell}
+				h := cose.ProtectedHeader{}
+				if pre {
+					h[int64(16)] = "old/value"
+					h[int64(1)] = cose.AlgorithmES256
+				}
+				before := mon.DeepHashValue(h)
+				var ret any
+				var err error
+				if guard(rec, "SetType", in, func() { ret, err = h.SetType(x.v) }) {
+					continue
+				}
+				rec.Eval(1)
+				rec.Class(cell)
+				rec.Event("setter:SetType")
+				encOK, ran := encVerdictBucket(rec, map[any]any{int64(16): x.v}, true, in)
+				if !ran {
+					continue
+				}
+				if err != nil {
+					if mon.DeepHashValue(h) != before {
+						rec.Violate("setter", "refused-but-modified", "SetType returned an error and changed the header map", in)
+					}
+					if encOK {
+						rec.Violate("setter", "stricter-than-encoder", fmt.Sprintf("SetType refused (%v) a value the protected-header encoder accepts under label 16", err), in)
+					}
+					continue
+				}
+				got, present := h[int64(16)]
+				if !present || mon.DeepHashValue(got) != mon.DeepHashValue(x.v) || mon.DeepHashValue(ret) != mon.DeepHashValue(x.v) || len(h) != map[bool]int{false: 1, true: 2}[pre] {
+					rec.Violate("setter", "wrong-placement", "SetType succeeded but the map does not hold exactly the given value under label 16", in)
+				}
+				// whatever the setter let in, the encoder decides by the generic rule
+				c13judgeGoOnly(rec, cell, h, in)
+			}
+		}
+		for _, a := range []cose.Algorithm{cose.AlgorithmES256, cose.AlgorithmEdDSA, cose.AlgorithmPS512, cose.AlgorithmReserved, cose.Algorithm(-65535), cose.Algorithm(1 << 40), cose.Algorithm(-1 << 40)} {
+			cell := fmt.Sprintf("setter/SetAlgorithm/%d", int64(a))
+			h := cose.ProtectedHeader{int64(4): []byte("kid")}
+			in := map[string]any{"cell": cell}
+			var got cose.Algorithm
+			var err error
+			if guard(rec, "SetAlgorithm", in, func() { h.SetAlgorithm(a); got, err = h.Algorithm() }) {
+				continue
+			}
+			rec.Eval(1)
+			rec.Class(cell)
+			rec.Event("setter:SetAlgorithm")
+			if err != nil || got != a || len(h) != 2 || h[int64(1)] != a {
+				rec.Violate("setter", "SetAlgorithm", fmt.Sprintf("after SetAlgorithm(%d) the header reports %d (err=%v), map size %d", int64(a), int64(got), err, len(h)), in)
+			}
+			c13judgeGoOnly(rec, cell, h, in)
+		}
+		// (SetCWTClaims' own iss/sub type rule is not among the rules the property lists: only its
+		//  all-or-nothing effect on the header map is judged)
+		for _, x := range svs {
+			for _, claim := range []any{int64(1), int64(2), int64(3), int(1), int(2), "iss"} {
+				cell := fmt.Sprintf("setter/SetCWTClaims/claim=%T(%v)/value=%s", claim, claim, x.name)
+				in := map[string]any{"cell": cell}
+				h := cose.ProtectedHeader{int64(1): cose.AlgorithmES256}
+				before := mon.DeepHashValue(h)
+				claims := cose.CWTClaims{claim: x.v}
+				var err error
+				if guard(rec, "SetCWTClaims", in, func() { _, err = h.SetCWTClaims(claims) }) {
+					continue
+				}
+				rec.Eval(1)
+				rec.Class(cell)
+				rec.Event("setter:SetCWTClaims")
+				if err != nil {
+					rec.Event("setter:SetCWTClaims:refused")
+					if mon.DeepHashValue(h) != before {
+						rec.Violate("setter", "refused-but-modified", "SetCWTClaims returned an error and changed the header map", in)
+					}
+					continue
+				}
+				if mon.DeepHashValue(h[int64(15)]) != mon.DeepHashValue(claims) || len(h) != 2 {
+					rec.Violate("setter", "wrong-placement", "SetCWTClaims succeeded but label 15 does not hold exactly the given claims", in)
+				}
+			}
+		}
+	}
 	rec.Exhaustive = !c.Thorough
 	// ---- random multi-parameter sets ----
 	nRand := c.N(4000, 300000)
@@ -595,6 +785,24 @@ func runC13(c *Ctx) {
 	rec.Require("cells:conforming", 1000)
 	rec.Require("cells:violating", 1000)
 	rec.RequireClasses(5000)
+}
+
+// c13judgeGoOnly: a Go-side protected map with no prepared wire twin: the encoder verdict must
+// equal the reference rules' verdict, and whatever is produced must be conforming and decodable.
+func c13judgeGoOnly(rec *mon.Recorder, cell string, goMap map[any]any, in map[string]any) {
+	if _, err := refcose.GoToNode(map[any]any(goMap), nil); err != nil {
+		c13produced(rec, cell, goMap, true, in) // outside the CBOR data model: only "produced => conforming"
+		return
+	}
+	ref := refcose.HeaderRulesGo(goMap, nil, true, false)
+	ok, ran := encVerdictBucket(rec, goMap, true, in)
+	if !ran {
+		return
+	}
+	if ok != (ref == nil) {
+		rec.Violate("encoder-vs-rules", cell, fmt.Sprintf("protected-header encoder verdict %v, reference rules say %v", ok, ref), in)
+	}
+	c13produced(rec, cell, goMap, true, in)
 }
 
 type namedString string
